@@ -313,6 +313,39 @@ func execC10(t *testing.T, p Plan, src kernel.Source) Result {
 				}
 			}
 		}
+		// ... also from L2 alone: with the keys evicted from L1 the reads must still be possible
+		// values (a write acknowledged on the strength of L1 alone would show here)
+		if d.L2 != nil {
+			st1 := d.L1.Fake.Store
+			for _, bk := range st1.LiveKeys() {
+				for k := range poss {
+					if bk == k || bk == k+"-meta" || isChunkKeyOf(bk, k) {
+						st1.Evict(bk)
+					}
+				}
+			}
+			for _, k := range sortedKeysK(poss) {
+				op := wire.Op{Kind: "get", Keys: []string{k}, Quiets: []bool{false}}
+				if fresh.C.ClosedByRend() {
+					fresh = w.Connect("main")
+					w.Settle()
+				}
+				w.Send(fresh, wire.EncodeText(op))
+				reply := append([]byte(nil), fresh.Unread()...)
+				fresh.Consume(len(reply))
+				o := decodeReply("text", op, reply, fresh.C.ClosedByRend())
+				if fresh.C.ClosedByRend() || o.Garbage != "" || o.Incomplete || o.Status != "ok" {
+					viol(len(p.Steps), "later_read_failed", fclass+"/"+p.Cfg.L1, "%s: after the fault, with L1 emptied, a fresh client's get %q got %q (closed=%v)", faultDesc, k, trunc(reply), fresh.C.ClosedByRend())
+					return
+				}
+				for _, v := range o.Values {
+					if m := possibleRead(poss[k], v); m != "" {
+						viol(len(p.Steps), "stale_or_wrong_read", "l2_only/"+fclass+"/"+p.Cfg.L1, "%s: after the fault, with the key evicted from L1, a fresh client's get %q returned %s (what L2 holds); history of the key on the victim connection: %s", faultDesc, k, m, victimHistory(p, k))
+						return
+					}
+				}
+			}
+		}
 		// ... and can write them: nothing the faulted command held is still held
 		for _, k := range sortedKeysK(poss) {
 			val := []byte("after-fault-" + k)
@@ -599,7 +632,7 @@ func init() {
 	register(&Prop{
 		ID: "C10", Gen: genC10, Exec: execC10, Enumerate: enumC10, Level: "fault_enumeration",
 		Nontrivial: func(p Plan, r Result) bool { return !r.Trivial },
-		Rule:       "one backend fault per run, addressed by (tier, index of the backend request counted from the start of the victim's program, kind): each of the 8 memcached error statuses that are refusals rather than statements about the key (E2BIG, EINVAL, UNKNOWN_COMMAND, ENOMEM, NOT_SUPPORTED, INTERNAL, BUSY, TMPFAIL; NOT_FOUND / EXISTS / NOT_STORED occur only truthfully) with its text body, connection closed before the request is applied / after it is applied but before the reply / after n reply bytes (n in {1, 23, 24, 26, 28, 30, 60}) / after the reply, each with EPIPE or silent write mode (36 faults per position). Enumerated part: 22 text / 27 binary victim programs (every command kind on present and absent keys, 3-chunk values, multi-key and quiet gets, 1-3 commands) x 6 deployments (L1-only / L1L2 / batch port x direct or chunked L1) x tier x request index 0..3 (0..9 on a chunked tier) x the 36 faults (thorough: all; quick: all 8 refusal statuses at every second position, a rotating sixth of them elsewhere, and a rotating sixth of the 28 connection faults; with the batch port the victim alternates between the ports); positions that the program never reaches count as trivial; a third of the two-tier cases (thorough: all) are repeated with the victim's keys evicted from L1 beforehand, half of those under the locking wrapper, so that reads back-fill L1 under the fault. Seeded part: drawn combinations, also under the locking wrapper, with evicted keys and with segmentation; one run in sixteen has the victim write a value of more than 1 MiB, which the simulated memcached truthfully refuses (too large), followed by a get and a set on the same connection. Oracle: victim gets a complete well-formed reply or its connection is closed (never quiescent with a request outstanding; a spinning goroutine is caught by the worker watchdog), an aborted connection has all its backend sockets closed, the bystander connection's replies equal the reference map's, and afterwards fresh connections read for every key only values allowed by a model in which unacknowledged writes may or may not have happened - never the value from before an acknowledged write or delete - and can then overwrite every key (set / get answered STORED and the new value: nothing the faulted command held is still held). Non-trivial = the fault fired; distinct = distinct plan hash",
+		Rule:       "one backend fault per run, addressed by (tier, index of the backend request counted from the start of the victim's program, kind): each of the 8 memcached error statuses that are refusals rather than statements about the key (E2BIG, EINVAL, UNKNOWN_COMMAND, ENOMEM, NOT_SUPPORTED, INTERNAL, BUSY, TMPFAIL; NOT_FOUND / EXISTS / NOT_STORED occur only truthfully) with its text body, connection closed before the request is applied / after it is applied but before the reply / after n reply bytes (n in {1, 23, 24, 26, 28, 30, 60}) / after the reply, each with EPIPE or silent write mode (36 faults per position). Enumerated part: 22 text / 27 binary victim programs (every command kind on present and absent keys, 3-chunk values, multi-key and quiet gets, 1-3 commands) x 6 deployments (L1-only / L1L2 / batch port x direct or chunked L1) x tier x request index 0..3 (0..9 on a chunked tier) x the 36 faults (thorough: all; quick: all 8 refusal statuses at every second position, a rotating sixth of them elsewhere, and a rotating sixth of the 28 connection faults; with the batch port the victim alternates between the ports); positions that the program never reaches count as trivial; a third of the two-tier cases (thorough: all) are repeated with the victim's keys evicted from L1 beforehand, half of those under the locking wrapper, so that reads back-fill L1 under the fault. Seeded part: drawn combinations, also under the locking wrapper, with evicted keys and with segmentation; one run in sixteen has the victim write a value of more than 1 MiB, which the simulated memcached truthfully refuses (too large), followed by a get and a set on the same connection. Oracle: victim gets a complete well-formed reply or its connection is closed (never quiescent with a request outstanding; a spinning goroutine is caught by the worker watchdog), an aborted connection has all its backend sockets closed, the bystander connection's replies equal the reference map's, and afterwards fresh connections read for every key only values allowed by a model in which unacknowledged writes may or may not have happened - never the value from before an acknowledged write or delete (read once as the tiers stand and once more with the keys evicted from L1, i.e. from L2 alone) - and can then overwrite every key (set / get answered STORED and the new value: nothing the faulted command held is still held). Non-trivial = the fault fired; distinct = distinct plan hash",
 		Real:       append(append([]string{}, realFullStack...), "handlers/memcached/chunked", "server/utils.go abort"),
 		Stub:       stubFullStack,
 		FaultKinds: []string{"status", "close_before", "close_applied", "close_mid", "close_after"},
